@@ -65,6 +65,7 @@ static int random_access(const lzma_index *ix, char *why, size_t wn) {
 }
 
 typedef struct { lzma_ret r; long seeks, calls; int badseek; } fres;
+static int use_finish;	// 1: LZMA_FINISH whenever the supplied input reaches the end of the file (index.h: the action is reset after a seek), LZMA_RUN otherwise
 // read-size schedule: size c1 for the first k1 reads, then c2 (0 = whole rest)
 static fres run(size_t c1, long k1, size_t c2, lzma_index **out) {
 	fres fr = { 0, 0, 0, 0 };
@@ -74,7 +75,7 @@ static fres run(size_t c1, long k1, size_t c2, lzma_index **out) {
 	for (;;) {
 		if (s.avail_in == 0) { size_t c = reads < k1 ? c1 : c2; size_t n = c && flen - pos > c ? c : flen - pos; s.next_in = file + pos; s.avail_in = n; pos += n; reads++; }
 		size_t before = s.avail_in;
-		fr.r = lzma_code(&s, LZMA_RUN); fr.calls++;
+		fr.r = lzma_code(&s, use_finish && pos == flen ? LZMA_FINISH : LZMA_RUN); fr.calls++;
 		if (fr.r == LZMA_SEEK_NEEDED) { fr.seeks++; if (s.seek_pos > flen) { fr.badseek = 1; break; } pos = s.seek_pos; s.avail_in = 0; stall = 0; continue; }
 		if (fr.r != LZMA_OK) break;
 		if (before == s.avail_in && s.avail_in == 0 && pos == flen) { if (++stall > 3) { fr.r = 98; break; } } else stall = 0;
@@ -119,6 +120,16 @@ static void check_layout(int thorough) {
 		else if (cmp_index(ix, why, sizeof why)) h_fail("fileinfo:index-vs-ref", "%s layout=[%s] read=%zu", why, layout, c);
 		lzma_index_end(ix, NULL);
 	}
+	// the same read sizes with LZMA_FINISH whenever the end of the file has been supplied (a seek request may follow such a call)
+	use_finish = 1;
+	for (size_t c = 0; c <= 64; c = c ? c * 2 : 1) {
+		H_CASE("c13_fileinfo layout=[%s] read=%zu with LZMA_FINISH at end of file", layout, c);
+		lzma_index *ix = NULL; fres f = run(c, 1L << 40, 0, &ix); runs++;
+		if (f.r != LZMA_STREAM_END || f.badseek) h_fail("fileinfo:finish-at-eof", "read size %zu with LZMA_FINISH at the end of the file: r=%d badseek=%d layout=[%s]", c, f.r, f.badseek, layout);
+		else if (cmp_index(ix, why, sizeof why)) h_fail("fileinfo:index-vs-ref", "%s layout=[%s] read=%zu (FINISH at EOF)", why, layout, c);
+		lzma_index_end(ix, NULL);
+	}
+	use_finish = 0;
 	// two-phase schedules (one change of read size = one deviation): c1 for k reads then c2
 	static const size_t CS[] = { 1, 3, 12, 13, 0 };
 	for (int a = 0; a < 5; a++) for (int b = 0; b < 5; b++) if (a != b) for (long k = 1; k <= (thorough ? 6 : 3); k++) {
@@ -199,9 +210,10 @@ int main(int argc, char **argv) {
 			static unsigned char decbig[1 << 15]; size_t dl = 0; if (ref_xz_decode(file, flen, decbig, sizeof decbig, &dl, &info) != REF_OK) { printf("NOTE big-stream layout rejected by the reference\n"); continue; } plen = dl;
 			files++; distinct_layouts++;
 			static const size_t CH[] = { 0, 1, 7, 100, 4096, 8191, 8192, 8193, 9000, 20000 };
-			for (int c = 0; c < 10; c++) { H_CASE("c13_fileinfo layout=[%s] read=%zu", layout, CH[c]); lzma_index *ix = NULL; char why[200]; fres f = run(CH[c], 1L << 40, 0, &ix); runs++; if (getenv("FI_DEBUG")) printf("DBG variant=%d read=%zu r=%d seeks=%ld calls=%ld flen=%zu nst=%u\n", variant, CH[c], f.r, f.seeks, f.calls, flen, info.nst);
-				if (f.r != LZMA_STREAM_END || f.badseek) h_fail("fileinfo:readsize", "read size %zu: r=%d badseek=%d layout=[%s]", CH[c], f.r, f.badseek, layout); else if (cmp_index(ix, why, sizeof why)) h_fail("fileinfo:index-vs-ref", "%s layout=[%s] read=%zu", why, layout, CH[c]);
-				else if ((CH[c] == 0 || CH[c] >= flen) && f.seeks) h_fail("fileinfo:seek-with-whole-file", "whole file in one buffer but LZMA_SEEK_NEEDED returned %ld times (index.h: no external seeking then) layout=[%s]", f.seeks, layout); lzma_index_end(ix, NULL); }
+			for (int c = 0; c < 20; c++) { use_finish = c >= 10; if (0) { } H_CASE("c13_fileinfo layout=[%s] read=%zu%s", layout, CH[c % 10], use_finish ? " with LZMA_FINISH at end of file" : ""); lzma_index *ix = NULL; char why[200]; fres f = run(CH[c % 10], 1L << 40, 0, &ix); runs++; if (getenv("FI_DEBUG")) printf("DBG variant=%d read=%zu r=%d seeks=%ld calls=%ld flen=%zu nst=%u\n", variant, CH[c % 10], f.r, f.seeks, f.calls, flen, info.nst);
+				if (f.r != LZMA_STREAM_END || f.badseek) h_fail("fileinfo:readsize", "read size %zu: r=%d badseek=%d layout=[%s]", CH[c % 10], f.r, f.badseek, layout); else if (cmp_index(ix, why, sizeof why)) h_fail("fileinfo:index-vs-ref", "%s layout=[%s] read=%zu", why, layout, CH[c % 10]);
+				else if ((CH[c % 10] == 0 || CH[c % 10] >= flen) && f.seeks) h_fail("fileinfo:seek-with-whole-file", "whole file in one buffer but LZMA_SEEK_NEEDED returned %ld times (index.h: no external seeking then) layout=[%s]", f.seeks, layout); lzma_index_end(ix, NULL); }
+			use_finish = 0;
 			// reuse: the same lzma_stream first gets a damaged copy (first Stream's footer), then the valid file
 			{ static unsigned char dmg[1 << 17]; memcpy(dmg, file, flen); size_t first_end = info.st_off[1] - 4; dmg[first_end - 3] ^= 0x40;
 			  lzma_stream s = LZMA_STREAM_INIT; lzma_index *i1 = NULL, *i2 = NULL; H_CASE("c13_fileinfo reuse after failed decode layout=[%s]", layout);
